@@ -1754,7 +1754,12 @@ def seed_C12(m):
         return None
     o = Observer(inp["latitude"], inp["longitude"])
     dt = _dt_from_descr(inp)
-    v = getattr(moon, fn)(o, dt)
+    try:
+        v = getattr(moon, fn)(o, dt)
+    except Exception as exc:  # noqa: BLE001
+        return {"clause": "moon.%s raised %r: the angles are defined for every observer and instant" % (fn, exc),
+                "latitude": inp["latitude"], "longitude": inp["longitude"], "utc": inp["datetime"],
+                "zone": inp.get("zone", "naive")}
     if fn == "azimuth" and not (0.0 <= v < 360.0):
         return {"clause": "azimuth %r outside [0, 360)" % v, "latitude": inp["latitude"],
                 "longitude": inp["longitude"], "utc": inp["datetime"], "zone": "fixed+0"}
